@@ -111,7 +111,7 @@ def gen_align_ops(rng):
                 ops += [("FI",), ("FG",), ("ch",)]
             elif r < 0.12:
                 ops.append(("fg", rng.choice(kinds)))
-            line += rng.choice([0, 1, 1, 1, 1, 2, 2, 3, 5])
+            line += rng.choice([0, 1, 1, 1, 1, 1, 1, 2, 2, 3])
             col = 1
         ops += [("FG",), ("ga",)]
         if rng.random() < 0.1:
